@@ -212,7 +212,7 @@ class SchemaRaises(SchemaBase):
         # check positional args (by name)
         seen = set()
         msgs = []
-        for i in range(len(args)):
+        for i in range(min(len(args), len(arg_names))):  # positional values beyond the named parameters belong to *args
             k = arg_names[i]
             observed_value = args[i]
             seen.add(k)
